@@ -197,7 +197,7 @@ def spell(root, how):
 
 
 class Config(object):
-    def __init__(self, tree, roots, prefix, mode, two_apps=False, spelling='plain', cache='default'):
+    def __init__(self, tree, roots, prefix, mode, two_apps=False, spelling='plain', cache='default', below=None):
         from clastic import Application
         from clastic import StaticApplication as _SA
         self.tree, self.roots, self.prefix, self.mode, self.two_apps = tree, roots, prefix, mode, two_apps
@@ -214,7 +214,14 @@ class Config(object):
             entries = [(prefix, StaticApplication(given[0])), (prefix, StaticApplication(given[1]))]
         else:
             entries = [(prefix, StaticApplication(list(given) if len(given) > 1 else given[0]))]
-        self.app = Application(entries, slash_mode=mode)
+        self.below = below
+        if below:
+            # the static application sits in an application that is itself mounted under a prefix (two levels deep)
+            self.app = Application([(below, Application(entries, slash_mode=mode))], slash_mode=mode)
+            self.prefix = prefix = below.rstrip('/') + '/' + prefix.lstrip('/')
+            self.light = True
+        else:
+            self.app = Application(entries, slash_mode=mode)
         self.served = rel_files(tree, roots)
         self.label = '%d-root%s %s %s%s' % (len(roots), '-2apps' if two_apps else '', prefix, mode,
                                             '' if spelling == 'plain' else ' root-spelled:' + spelling) + \
@@ -225,7 +232,7 @@ class Config(object):
 
     def desc(self):
         return {'roots': len(self.roots), 'root_order': [1 if r == self.tree.root1 else 2 for r in self.roots], 'two_apps': self.two_apps,
-                'prefix': self.prefix, 'mode': self.mode, 'spelling': self.spelling, 'cache': self.cache}
+                'prefix': self.prefix if not self.below else self.prefix[len(self.below.rstrip('/')):], 'mode': self.mode, 'spelling': self.spelling, 'cache': self.cache, 'below': self.below}
 
 
 def serve(cfg, segs, headers=None, method='GET', faults=None):
@@ -576,6 +583,8 @@ def configs(tree):
     out.append(Config(tree, [tree.root2, tree.root1], '/d/', 'strict', spelling='double-slash'))
     out.append(Config(tree, [tree.root1], '/rel/', 'redirect', spelling='relative'))
     out.append(Config(tree, [tree.root1], '/nc0/', 'redirect', cache=0))
+    out.append(Config(tree, [tree.root1, tree.root2], '/static/', 'redirect', below='/site/'))
+    out.append(Config(tree, [tree.root1], '/s', 'rewrite', below='/a/b'))
     out.append(Config(tree, [tree.root2, tree.root1], '/ncn', 'rewrite', cache=None))
     out.append(Config(tree, [tree.root1], '/c60/', 'strict', cache=60))
     return out
@@ -688,7 +697,7 @@ def replay(sh, case, spec):
         roots = [tree.root1] if case['roots'] == 1 else [tree.root1, tree.root2]
         if case.get('root_order'):
             roots = [tree.root1 if k == 1 else tree.root2 for k in case['root_order']]
-        cfg = Config(tree, roots, case['prefix'], case['mode'], two_apps=case.get('two_apps', False), spelling=case.get('spelling', 'plain'), cache=case.get('cache', 'default'))
+        cfg = Config(tree, roots, case['prefix'], case['mode'], two_apps=case.get('two_apps', False), spelling=case.get('spelling', 'plain'), cache=case.get('cache', 'default'), below=case.get('below'))
         if case.get('fault'):
             faults = Faults()
             judge_faults(sh, cfg, case['segs'], faults, headers=case.get('headers'))
